@@ -941,7 +941,6 @@ func runC12(c *CaseCtx) (res CaseResult) {
 	return res
 }
 
-
 // viaOf: the relabelling allowance for operations that may have gone through
 // a redefined function (all declared inputs of all redefined functions of the
 // history; a superset is sound).
